@@ -2,12 +2,14 @@
    (Un)MarshalJSON methods of a tagged enum) against the import set collected while printing
    (begin_file inserts encoding/json, format_special_type inserts time where it prints time.Time; the
    set only grows; it is written after the whole body has been formatted).
-   Stated for configurations without uppercase_acronyms (go.rs:579 rewrites the printed TEXT of a
-   type; with no acronyms it is the identity). *)
-From Coq Require Import List Bool Permutation.
+   go.rs:579 rewrites the printed TEXT of a type: the section below is parametric in what is known of
+   that rewrite (it introduces no package use) and is instantiated twice: configurations without
+   uppercase_acronyms (the rewrite is the identity: c12_go), and alphanumeric acronyms on ASCII type
+   names (Proofs/GoAcronyms.v: only the case of letters changes: c12_go_acronyms). *)
+From Coq Require Import List Bool Permutation Lia ZifyBool ZifyN.
 From TS Require Import Model.Str Model.Outcome Model.Unicode Model.Types Model.Parse Model.TopsortAlgo Model.Topsort
                        Model.Lang.Common Model.Lang.Decl Model.Lang.Go Spec.C12Spec.
-From TS Require Import Proofs.BackCommon Proofs.C12Common Proofs.C12Obs.
+From TS Require Import Proofs.BackCommon Proofs.C12Common Proofs.C12Obs Proofs.GoAcronyms.
 Import ListNotations.
 
 Lemma c12_sset_insert_in x y l : In x (sset_insert y l) <-> x = y \/ In x l.
@@ -50,9 +52,13 @@ Definition c12_go_path (u : str) : str := if str_eqb u (lit "json") then lit "en
 Section GO.
 Variable uc : unicode.
 Variable cfg : go_config.
-Hypothesis no_acronyms : go_uppercase_acronyms cfg = [].
+(* [c12_rt_ok]: the Rust types on whose translation the acronym rewrite is known to introduce no package use *)
+Variable c12_rt_ok : rtype -> Prop.
+Hypothesis Hty_uses : forall gs t s x s1, c12_rt_ok t -> go_texp cfg gs t s = Ok (x, s1) ->
+  forall s2 r s3, go_acronyms_ty uc cfg x s2 = Ok (r, s3) -> incl (c12_go_ty_uses r) (c12_go_ty_uses x).
 
 Definition c12_go_id_ok (id : str) : Prop := c12_go_pkg_of id = [].
+Definition c12_go_t_ok (t : rtype) : Prop := Forall c12_go_id_ok (c12_rtype_ids t) /\ c12_rt_ok t.
 
 Definition c12_go_Qt (x : go_ty) (s : go_state) : Prop := forall u, In u (c12_go_ty_uses x) -> In (c12_go_path u) s.
 Lemma c12_go_Qt_up x s s' : c12_go_Qt x s -> c12_gle s s' -> c12_go_Qt x s'.
@@ -102,29 +108,25 @@ Proof.
     intros u Hu. vm_compute in Hu. destruct Hu as [<-|[]]. apply c12_sset_insert_in. left. reflexivity.
 Qed.
 
-(* ---- with no acronyms the rewriting functions are the identity and leave the state alone ---- *)
-Lemma c12_go_convert_id name : go_convert_acronyms_to_uppercase uc (go_uppercase_acronyms cfg) name = Ok name.
-Proof. rewrite no_acronyms. reflexivity. Qed.
-
-Lemma c12_go_acr name s r s' : go_acronyms_to_uppercase uc cfg name s = Ok (r, s') -> r = name /\ s' = s.
+(* ---- the rewriting functions leave the state alone (every configuration) ---- *)
+Lemma c12_go_acr name s r s' : go_acronyms_to_uppercase uc cfg name s = Ok (r, s') -> s' = s.
 Proof.
-  unfold go_acronyms_to_uppercase, go_lift. rewrite c12_go_convert_id. intros [= <- <-]. auto.
+  unfold go_acronyms_to_uppercase, go_lift. destruct (go_convert_acronyms_to_uppercase uc (go_uppercase_acronyms cfg) name); try discriminate.
+  now intros [= _ <-].
 Qed.
 
-Lemma c12_go_ty_acronyms_id t : go_ty_acronyms uc cfg t = Ok t.
+Lemma c12_go_acronyms_ty_state t s r s' : go_acronyms_ty uc cfg t s = Ok (r, s') -> s' = s.
 Proof.
-  induction t as [n args IH|e IH|n e IH|k v IHk IHv|e IH|x] using c12_go_ty_ind; cbn [go_ty_acronyms];
-    rewrite ?c12_go_convert_id; cbn [bind]; rewrite ?IH, ?IHk, ?IHv; cbn [bind]; try reflexivity.
-  rewrite c12_go_is_mapM.
-  assert (E : mapM (go_ty_acronyms uc cfg) args = Ok args).
-  { induction IH as [|a l Ha Hl IHl]; cbn [mapM]; [reflexivity|]. rewrite Ha. cbn [bind]. rewrite IHl. reflexivity. }
-  rewrite E. reflexivity.
+  unfold go_acronyms_ty. intros H. apply mbind_ok in H as (text & s1 & E & H). apply c12_go_acr in E as ->.
+  c12_go_ret H. reflexivity.
 Qed.
 
-Lemma c12_go_acronyms_ty_id t s r s' : go_acronyms_ty uc cfg t s = Ok (r, s') -> r = t /\ s' = s.
+(* a verbatim type stays verbatim: it uses no package *)
+Lemma c12_go_acronyms_ty_raw o s r s' : go_acronyms_ty uc cfg (GRaw o) s = Ok (r, s') -> c12_go_ty_uses r = [].
 Proof.
-  unfold go_acronyms_ty. intros H. apply mbind_ok in H as (text & s1 & E & H). apply c12_go_acr in E as [-> ->].
-  c12_go_ret H. rewrite c12_go_ty_acronyms_id, str_eqb_refl. auto.
+  unfold go_acronyms_ty. intros H. apply mbind_ok in H as (text & s1 & E & H). c12_go_ret H. cbn [go_ty_acronyms].
+  destruct (go_convert_acronyms_to_uppercase uc (go_uppercase_acronyms cfg) o); cbn [bind]; try reflexivity.
+  destruct (str_eqb _ _); reflexivity.
 Qed.
 
 Lemma c12_go_field_name name b s r s' : go_format_field_name uc cfg name b s = Ok (r, s') -> s' = s.
@@ -138,24 +140,25 @@ Proof. unfold c12_go_Qd, c12_gle, incl. intros Q L u Hu. destruct (Q u Hu); auto
 Definition c12_go_Qm (m : go_member) (s : go_state) : Prop := c12_go_Qt (gm_type m) s.
 
 Lemma c12_go_member_flag gs f :
-  Forall c12_go_id_ok (c12_rtype_ids (fty f)) ->
+  c12_go_t_ok (fty f) ->
   forall s m s', go_member_of uc cfg gs f s = Ok (m, s') -> c12_gle s s' /\ c12_go_Qm m s'.
 Proof.
-  intros Hid s m s' H. unfold go_member_of in H.
+  intros [Hid Hrt] s m s' H. unfold go_member_of in H.
   apply mbind_ok in H as (tn & s1 & Et & H). apply mbind_ok in H as (gt & s2 & Eg & H).
-  apply c12_go_acronyms_ty_id in Eg as [-> ->]. apply mbind_ok in H as (fname & s3 & Ef & H).
+  pose proof (c12_go_acronyms_ty_state _ _ _ _ Eg) as ->. apply mbind_ok in H as (fname & s3 & Ef & H).
   apply c12_go_field_name in Ef as ->. c12_go_ret H. unfold c12_go_Qm. cbn [gm_type].
   destruct (type_override f Go).
-  - c12_go_ret Et. split; [apply c12_gle_refl|intros u []].
-  - eapply c12_go_texp_flag; eauto.
+  - c12_go_ret Et. split; [apply c12_gle_refl|]. intros u Hu. rewrite (c12_go_acronyms_ty_raw _ _ _ _ Eg) in Hu. destruct Hu.
+  - destruct (c12_go_texp_flag _ _ Hid _ _ _ Et) as [L Q]. split; [exact L|].
+    intros u Hu. apply Q. exact (Hty_uses _ _ _ _ _ Hrt Et _ _ _ Eg u Hu).
 Qed.
 
 Lemma c12_go_struct_flag rs :
-  Forall (fun f => Forall c12_go_id_ok (c12_rtype_ids (fty f))) (sfields rs) ->
+  Forall (fun f => c12_go_t_ok (fty f)) (sfields rs) ->
   forall s d s', go_struct_decl_of uc cfg rs s = Ok (d, s') -> c12_gle s s' /\ c12_go_Qd d s'.
 Proof.
   intros Hid s d s' H. unfold go_struct_decl_of in H.
-  apply mbind_ok in H as (name & s1 & En & H). apply c12_go_acr in En as [_ ->].
+  apply mbind_ok in H as (name & s1 & En & H). apply c12_go_acr in En as ->.
   apply mbind_ok in H as (ms & s2 & Ems & H). c12_go_ret H.
   apply (c12_mmapM_mono c12_gle c12_gle_refl c12_gle_trans _ c12_go_Qm) in Ems as [L Q].
   - split; [exact L|]. intros u Hu. cbn [c12_go_decl_uses] in Hu. apply in_flat_map in Hu as (m & Hm & Hu).
@@ -164,7 +167,7 @@ Proof.
   - eapply Forall_impl; [|exact Hid]. cbn. intros f Hf. apply c12_go_member_flag. exact Hf.
 Qed.
 
-Definition c12_go_item_ok (it : ritem) : Prop := Forall (fun t => Forall c12_go_id_ok (c12_rtype_ids t)) (c12_item_types it).
+Definition c12_go_item_ok (it : ritem) : Prop := Forall c12_go_t_ok (c12_item_types it).
 Definition c12_go_Qds (ds : list go_decl) (s : go_state) : Prop := Forall (fun d => c12_go_Qd d s) ds.
 Lemma c12_go_Qds_up ds s s' : c12_go_Qds ds s -> c12_gle s s' -> c12_go_Qds ds s'.
 Proof. unfold c12_go_Qds. intros Q L. eapply Forall_impl; [|exact Q]. cbn. intros d Qd. eapply c12_go_Qd_up; eauto. Qed.
@@ -173,20 +176,22 @@ Definition c12_go_Qv (v : go_variant) (s : go_state) : Prop :=
   match gv_content v with GCType ty _ => c12_go_Qt ty s | _ => True end.
 
 Lemma c12_go_variant_flag sh cs sn tk v :
-  Forall (fun t => Forall c12_go_id_ok (c12_rtype_ids t)) (c12_variant_types v) ->
+  Forall c12_go_t_ok (c12_variant_types v) ->
   forall s d s', go_variant_of uc cfg sh cs sn tk v s = Ok (d, s') -> c12_gle s s' /\ c12_go_Qv d s'.
 Proof.
   intros Hid s d s' H. unfold go_variant_of in H.
-  apply mbind_ok in H as (vn & s1 & E1 & H). apply c12_go_acr in E1 as [_ ->].
-  apply mbind_ok in H as (vt & s2 & E2 & H). apply mbind_ok in H as (tp & s3 & E3 & H). apply c12_go_acr in E3 as [_ ->].
+  apply mbind_ok in H as (vn & s1 & E1 & H). apply c12_go_acr in E1 as ->.
+  apply mbind_ok in H as (vt & s2 & E2 & H). apply mbind_ok in H as (tp & s3 & E3 & H). apply c12_go_acr in E3 as ->.
   apply mbind_ok in H as (content & s4 & E4 & H). c12_go_ret H. unfold c12_go_Qv. cbn [gv_content].
   destruct v as [vsh|t vsh|fs vsh].
   - c12_go_ret E2. c12_go_ret E4. split; [apply c12_gle_refl|exact I].
   - apply mbind_ok in E2 as (x & s5 & Ex & E2). c12_go_ret E2.
-    apply mbind_ok in E4 as (fvt & s6 & Ef & E4). apply c12_go_acronyms_ty_id in Ef as [-> ->]. c12_go_ret E4.
-    cbn [c12_variant_types] in Hid. apply Forall_cons_iff in Hid as [Ht _]. exact (c12_go_texp_flag _ _ Ht _ _ _ Ex).
-  - apply mbind_ok in E2 as (nm & s5 & En & E2). unfold go_make_anonymous_struct_name in En. apply c12_go_acr in En as [_ ->].
-    c12_go_ret E2. apply mbind_ok in E4 as (fvt & s6 & Ef & E4). apply c12_go_acr in Ef as [_ ->]. c12_go_ret E4.
+    apply mbind_ok in E4 as (fvt & s6 & Ef & E4). pose proof (c12_go_acronyms_ty_state _ _ _ _ Ef) as ->. c12_go_ret E4.
+    cbn [c12_variant_types] in Hid. apply Forall_cons_iff in Hid as [[Ht Hrt] _].
+    destruct (c12_go_texp_flag _ _ Ht _ _ _ Ex) as [L Q]. split; [exact L|].
+    intros u Hu. apply Q. exact (Hty_uses _ _ _ _ _ Hrt Ex _ _ _ Ef u Hu).
+  - apply mbind_ok in E2 as (nm & s5 & En & E2). unfold go_make_anonymous_struct_name in En. apply c12_go_acr in En as ->.
+    c12_go_ret E2. apply mbind_ok in E4 as (fvt & s6 & Ef & E4). apply c12_go_acr in Ef as ->. c12_go_ret E4.
     split; [apply c12_gle_refl|exact I].
 Qed.
 
@@ -218,29 +223,29 @@ Proof.
       - exact c12_go_Qds_up.
       - eapply Forall_impl; [|exact Hid]. cbn. intros v Hv s0 y s0' E0.
         destruct v as [vsh|t vsh|fs vsh]; try (c12_go_ret E0; split; [apply c12_gle_refl|constructor]).
-        apply mbind_ok in E0 as (nm & s3 & En & E0). unfold go_make_anonymous_struct_name in En. apply c12_go_acr in En as [_ ->].
+        apply mbind_ok in E0 as (nm & s3 & En & E0). unfold go_make_anonymous_struct_name in En. apply c12_go_acr in En as ->.
         apply mbind_ok in E0 as (d & s4 & Ed & E0). c12_go_ret E0.
         apply c12_go_struct_flag in Ed as [L Q]; [split; [exact L|constructor; [exact Q|constructor]]|].
         cbn [anon_struct sfields]. cbn [c12_variant_types] in Hv. rewrite Forall_map in Hv. exact Hv. }
     destruct LA as [L1 Q1].
     destruct e as [sh|tag content sh]; cbn [enum_shared] in *.
-    + apply mbind_ok in H as (en & s2 & En & H). apply c12_go_acr in En as [_ ->].
+    + apply mbind_ok in H as (en & s2 & En & H). apply c12_go_acr in En as ->.
       apply mbind_ok in H as (vs & s3 & Evs & H). c12_go_ret H.
       assert (L2 : c12_gle s1 s3).
       { eapply (c12_mmapM_le c12_gle c12_gle_refl c12_gle_trans); [|exact Evs]. apply Forall_forall. intros v _ s0 y s0' E0.
         unfold go_unit_variant_of in E0. destruct v; try discriminate E0.
-        apply mbind_ok in E0 as (a1 & t1 & E1 & E0). apply c12_go_acr in E1 as [_ ->].
-        apply mbind_ok in E0 as (a2 & t2 & E2 & E0). apply c12_go_acr in E2 as [_ ->]. c12_go_ret E0. apply c12_gle_refl. }
+        apply mbind_ok in E0 as (a1 & t1 & E1 & E0). apply c12_go_acr in E1 as ->.
+        apply mbind_ok in E0 as (a2 & t2 & E2 & E0). apply c12_go_acr in E2 as ->. c12_go_ret E0. apply c12_gle_refl. }
       split; [eapply c12_gle_trans; eauto|]. unfold c12_go_Qds. apply Forall_app. split.
       * exact (c12_go_Qds_up _ _ _ Q1 L2).
       * constructor; [|constructor]. intros u [].
-    + apply mbind_ok in H as (sn & s2 & E2 & H). apply c12_go_acr in E2 as [_ ->].
+    + apply mbind_ok in H as (sn & s2 & E2 & H). apply c12_go_acr in E2 as ->.
       apply mbind_ok in H as (cf & s3 & E3 & H). apply c12_go_lift_state in E3 as ->.
       apply mbind_ok in H as (tf & s4 & E4 & H). apply c12_go_field_name in E4 as ->.
       apply mbind_ok in H as (ssn & s5 & E5 & H).
       assert (s5 = s1) as ->.
       { destruct (original (eid sh)) as [|c0 r0]; [discriminate E5|]. destruct (N.ltb c0 128); [|discriminate E5]. c12_go_ret E5. reflexivity. }
-      apply mbind_ok in H as (ta & s6 & E6 & H). apply c12_go_acr in E6 as [_ ->].
+      apply mbind_ok in H as (ta & s6 & E6 & H). apply c12_go_acr in E6 as ->.
       apply mbind_ok in H as (vs & s7 & Evs & H). c12_go_ret H.
       apply (c12_mmapM_mono c12_gle c12_gle_refl c12_gle_trans _ c12_go_Qv) in Evs as [L2 Q2].
       * split; [eapply c12_gle_trans; eauto|]. unfold c12_go_Qds. apply Forall_app. split.
@@ -251,44 +256,28 @@ Proof.
            destruct (gv_content v); try contradiction. exact (Q2 u Hu).
       * intros y a b Qy Lab. unfold c12_go_Qv in *. destruct (gv_content y); auto. eapply c12_go_Qt_up; eauto.
       * eapply Forall_impl; [|exact Hid]. cbn. intros v Hv s0 y s0' E0. exact (c12_go_variant_flag _ _ _ _ _ Hv _ _ _ E0).
-  - apply mbind_ok in H as (name & s1 & En & H). apply c12_go_acr in En as [_ ->].
+  - apply mbind_ok in H as (name & s1 & En & H). apply c12_go_acr in En as ->.
     apply mbind_ok in H as (ty & s2 & Ety & H). c12_go_ret H.
-    unfold c12_go_item_ok in Hid. cbn [c12_item_types] in Hid. apply Forall_cons_iff in Hid as [Ht _].
+    unfold c12_go_item_ok in Hid. cbn [c12_item_types] in Hid. apply Forall_cons_iff in Hid as [[Ht _] _].
     destruct (c12_go_texp_flag _ _ Ht _ _ _ Ety) as [L Q]. split; [exact L|].
     constructor; [|constructor]. intros u Hu. right. exact (Q u Hu).
   - apply mbind_ok in H as (ty & s1 & Ety & H). c12_go_ret H.
-    unfold c12_go_item_ok in Hid. cbn [c12_item_types] in Hid. apply Forall_cons_iff in Hid as [Ht _].
+    unfold c12_go_item_ok in Hid. cbn [c12_item_types] in Hid. apply Forall_cons_iff in Hid as [[Ht _] _].
     destruct (c12_go_texp_flag _ _ Ht _ _ _ Ety) as [L Q]. split; [exact L|].
     constructor; [|constructor]. intros u Hu. right. exact (Q u Hu).
-Qed.
-
-Lemma c12_go_dom_items items : c12_go_dom cfg items = true -> Forall c12_go_item_ok items.
-Proof.
-  unfold c12_go_dom. intros H. apply andb_true_iff in H as [_ H]. rewrite forallb_forall in H.
-  apply Forall_forall. intros it Hit. unfold c12_go_item_ok. apply Forall_forall. intros t Ht.
-  apply Forall_forall. intros id Hid.
-  assert (Hin : In id (flat_map c12_item_ids items)).
-  { apply in_flat_map. exists it. split; [exact Hit|]. unfold c12_item_ids. apply in_flat_map. eauto. }
-  specialize (H id Hin). unfold c12_go_id_ok, c12_go_pkg_of.
-  destruct (c12_before c12_ch_dot id); [|reflexivity]. apply negb_true_iff in H. rewrite H. reflexivity.
 Qed.
 
 Lemma c12_forallb_perm {A} (p : A -> bool) a b : Permutation a b -> forallb p b = true -> forallb p a = true.
 Proof. rewrite !forallb_forall. intros P H x Hx. apply H. eapply Permutation_in; eauto. Qed.
 
 Theorem c12_go_file pd ds imports :
-  go_decls uc cfg pd = Ok (ds, imports) -> c12_go_dom cfg (items_of pd) = true ->
+  go_decls uc cfg pd = Ok (ds, imports) -> Forall c12_go_item_ok (items_of pd) ->
   c12_good (c12_go_uses ds) (c12_go_defs imports) = true.
 Proof.
   unfold go_decls. intros H Hdom. apply c12_bind_ok in H as (items & Et & H).
   apply c12_topsort_perm in Et.
-  assert (Hdom' : c12_go_dom cfg items = true).
-  { unfold c12_go_dom in *. apply andb_true_iff in Hdom as [A B]. rewrite A. cbn [andb].
-    eapply c12_forallb_perm; [|exact B]. unfold c12_item_ids.
-    clear -Et. induction Et; cbn [flat_map]; auto using Permutation_app_head, Permutation_app, Permutation_app_comm.
-    - rewrite !app_assoc. apply Permutation_app_tail. apply Permutation_app_comm.
-    - eapply Permutation_trans; eauto. }
-  apply c12_go_dom_items in Hdom'.
+  assert (Hdom' : Forall c12_go_item_ok items) .
+  { apply Forall_forall. intros it Hit. rewrite Forall_forall in Hdom. apply Hdom. eapply Permutation_in; [exact Et|exact Hit]. }
   apply mbind_ok in H as (hd & s1 & Eh & H). apply mbind_ok in H as (dss & s2 & Edss & H). c12_go_ret H.
   assert (Hjson : In (lit "encoding/json") s1).
   { unfold go_begin_file in Eh. apply mbind_ok in Eh as (u0 & s3 & Ei & Eh). c12_go_ret Eh.
@@ -324,10 +313,133 @@ Proof.
 Qed.
 End GO.
 
+(* the `no vocabulary package prefix` part of the domain, with any extra condition on the types *)
+Lemma c12_go_ids_item_ok (rt_ok : rtype -> Prop) items :
+  forallb (fun id => match c12_before c12_ch_dot id with Some p => negb (mem_str p c12_go_vocab) | None => true end)
+          (flat_map c12_item_ids items) = true ->
+  (forall it t, In it items -> In t (c12_item_types it) -> rt_ok t) ->
+  Forall (c12_go_item_ok rt_ok) items.
+Proof.
+  intros H Hrt. rewrite forallb_forall in H.
+  apply Forall_forall. intros it Hit. unfold c12_go_item_ok. apply Forall_forall. intros t Ht.
+  split; [|exact (Hrt it t Hit Ht)]. apply Forall_forall. intros id Hid.
+  assert (Hin : In id (flat_map c12_item_ids items)).
+  { apply in_flat_map. exists it. split; [exact Hit|]. unfold c12_item_ids. apply in_flat_map. eauto. }
+  specialize (H id Hin). unfold c12_go_id_ok, c12_go_pkg_of.
+  destruct (c12_before c12_ch_dot id); [|reflexivity]. apply negb_true_iff in H. rewrite H. reflexivity.
+Qed.
+
+(* ======================================================================== instance 1: no acronyms *)
+Section NOACR.
+Variable uc : unicode.
+Variable cfg : go_config.
+Hypothesis no_acronyms : go_uppercase_acronyms cfg = [].
+
+Lemma c12_go_convert_id name : go_convert_acronyms_to_uppercase uc (go_uppercase_acronyms cfg) name = Ok name.
+Proof. rewrite no_acronyms. reflexivity. Qed.
+
+Lemma c12_go_ty_acronyms_id t : go_ty_acronyms uc cfg t = Ok t.
+Proof.
+  induction t as [n args IH|e IH|n e IH|k v IHk IHv|e IH|x] using c12_go_ty_ind; cbn [go_ty_acronyms];
+    rewrite ?c12_go_convert_id; cbn [bind]; rewrite ?IH, ?IHk, ?IHv; cbn [bind]; try reflexivity.
+  rewrite c12_go_is_mapM.
+  assert (E : mapM (go_ty_acronyms uc cfg) args = Ok args).
+  { induction IH as [|a l Ha Hl IHl]; cbn [mapM]; [reflexivity|]. rewrite Ha. cbn [bind]. rewrite IHl. reflexivity. }
+  rewrite E. reflexivity.
+Qed.
+
+Lemma c12_go_acronyms_ty_id t s r s' : go_acronyms_ty uc cfg t s = Ok (r, s') -> r = t.
+Proof.
+  unfold go_acronyms_ty, mbind, go_acronyms_to_uppercase, go_lift. rewrite c12_go_convert_id. unfold ret.
+  rewrite c12_go_ty_acronyms_id, str_eqb_refl. now intros [= <- _].
+Qed.
+End NOACR.
+
 Theorem c12_go uc cfg pd uses defs :
   c12_go_observe uc cfg pd = Ok (uses, defs) -> c12_go_dom cfg (items_of pd) = true -> c12_good uses defs = true.
 Proof.
   unfold c12_go_observe. intros H Hdom. apply c12_bind_ok in H as ([ds imports] & E & H). injection H as <- <-.
-  cbn [fst snd]. eapply c12_go_file; eauto.
-  unfold c12_go_dom in Hdom. apply andb_true_iff in Hdom as [A _]. destruct (go_uppercase_acronyms cfg); [reflexivity|discriminate A].
+  cbn [fst snd]. unfold c12_go_dom in Hdom. apply andb_true_iff in Hdom as [A B].
+  assert (Hno : go_uppercase_acronyms cfg = []) by (destruct (go_uppercase_acronyms cfg); [reflexivity|discriminate A]).
+  apply (c12_go_file uc cfg (fun _ => True)) with (pd := pd); [|exact E|].
+  - intros gs t s x s1 _ _ s2 r s3 Er. rewrite (c12_go_acronyms_ty_id uc cfg Hno _ _ _ _ Er). apply incl_refl.
+  - apply c12_go_ids_item_ok; [exact B|auto].
 Qed.
+
+(* ======================================================================== instance 2: alphanumeric acronyms, ASCII names *)
+(* the package prefix of a name whose letters were (partly) upper-cased: `.` is kept and never created, and a
+   prefix that reads `time` / `json` afterwards (all lowercase) was not touched *)
+Lemma c12_before_apply cov k n :
+  c12_before c12_ch_dot (ga_apply cov k n) =
+  match c12_before c12_ch_dot n with Some p => Some (ga_apply cov k p) | None => None end.
+Proof.
+  revert k. induction n as [|x r IH]; intros k; cbn [ga_apply c12_before]; [reflexivity|].
+  set (x' := if cov k then aupper x else x).
+  assert (E : N.eqb x' c12_ch_dot = N.eqb x c12_ch_dot).
+  { subst x'. destruct (cov k); [|reflexivity]. unfold aupper, is_alower, c12_ch_dot. destruct ((97 <=? x)%N && (x <=? 122)%N) eqn:El; [lia|reflexivity]. }
+  rewrite E. destruct (N.eqb x c12_ch_dot); [reflexivity|]. rewrite IH. destruct (c12_before c12_ch_dot r); reflexivity.
+Qed.
+
+Lemma c12_apply_lower cov k p : Forall (fun c => is_alower c = true) (ga_apply cov k p) -> ga_apply cov k p = p.
+Proof.
+  revert k. induction p as [|c r IH]; intros k H; cbn [ga_apply] in *; [reflexivity|].
+  inversion H as [|? ? Hc Hr]; subst. rewrite (IH _ Hr). destruct (cov k); [|reflexivity].
+  rewrite ga_aupper_not_lower in Hc. discriminate.
+Qed.
+
+Lemma c12_pkg_of_apply cov n : incl (c12_go_pkg_of (ga_apply cov 0 n)) (c12_go_pkg_of n).
+Proof.
+  unfold c12_go_pkg_of. rewrite c12_before_apply. destruct (c12_before c12_ch_dot n) as [p|]; [|apply incl_refl].
+  destruct (mem_str (ga_apply cov 0 p) c12_go_vocab) eqn:E; [|intros u []].
+  assert (Ep : ga_apply cov 0 p = p).
+  { apply c12_apply_lower. apply c12_mem_str_In in E. destruct E as [<-|[<-|[]]]; repeat constructor. }
+  rewrite Ep in *. rewrite E. apply incl_refl.
+Qed.
+
+Lemma c12_uses_map cfg t : incl (c12_go_ty_uses (ga_ty_map (ga_T cfg) t)) (c12_go_ty_uses t).
+Proof.
+  induction t as [n args IH|e IH|n e IH|k v IHk IHv|e IH|x] using c12_go_ty_ind; cbn [ga_ty_map c12_go_ty_uses]; auto using incl_refl.
+  - apply incl_app; [apply incl_appl; apply c12_pkg_of_apply|apply incl_appr].
+    intros u Hu. apply in_flat_map in Hu as (y & Hy & Hu). apply in_map_iff in Hy as (a & <- & Ha).
+    rewrite Forall_forall in IH. apply in_flat_map. exists a. split; [exact Ha|exact (IH a Ha u Hu)].
+  - apply incl_app; [apply incl_appl; exact IHk|apply incl_appr; exact IHv].
+Qed.
+
+Lemma c12_ga_rtype_ids t : ga_rtype_ids t = c12_rtype_ids t.
+Proof.
+  induction t as [id|id ps IH|t IH|t n IH|t IH|k v IHk IHv|t IH|p] using rtype_ind'; cbn [ga_rtype_ids c12_rtype_ids]; try congruence. all: reflexivity.
+Qed.
+
+Theorem c12_go_acronyms : forall uc, unicode_ok uc -> forall cfg pd uses defs,
+  c12_go_observe uc cfg pd = Ok (uses, defs) -> c12_go_dom_acr cfg (items_of pd) = true -> c12_good uses defs = true.
+Proof.
+  intros uc Huc cfg pd uses defs H Hdom.
+  unfold c12_go_observe in H. apply c12_bind_ok in H as ([ds imports] & E & H). injection H as <- <-.
+  cbn [fst snd]. unfold c12_go_dom_acr in Hdom. apply andb_true_iff in Hdom as [Hdom Hvoc].
+  apply andb_true_iff in Hdom as [Hdom Hids]. apply andb_true_iff in Hdom as [Hacr Hmap].
+  change (forallb (forallb ga_alnum) (go_uppercase_acronyms cfg) = true) in Hacr.
+  apply (c12_go_file uc cfg (fun t => forallb (forallb is_ascii) (c12_rtype_ids t) = true)) with (pd := pd); [|exact E|].
+  - intros gs t s x s1 Ht Ex s2 r s3 Er. rewrite <- c12_ga_rtype_ids in Ht.
+    pose proof (ga_texp_ascii cfg gs t Hmap Ht s x s1 Ex) as Hx.
+    rewrite (ga_acronyms_ty uc Huc cfg Hacr x s2 Hx) in Er. injection Er as <- _. apply c12_uses_map.
+  - apply c12_go_ids_item_ok; [exact Hvoc|]. intros it t Hit Ht. rewrite forallb_forall in Hids |- *.
+    intros id Hid. apply Hids. apply in_flat_map. exists it. split; [exact Hit|]. unfold c12_item_ids. apply in_flat_map. eauto.
+Qed.
+
+(* non-vacuity: acronym ID rewrites the type name UserId (to UserID) next to a time.Time field *)
+Definition c12_go_acr_cfg : go_config :=
+  {| go_package := lit "p"; go_type_mappings := []; go_uppercase_acronyms := [lit "ID"]; go_no_version_header := true;
+     go_no_pointer_slice := false; go_version := [] |}.
+Definition c12_go_acr_id (s : str) : id := {| original := s; renamed := s; via_serde_rename := false |}.
+Definition c12_go_acr_pd : parsed :=
+  {| p_structs := [{| sid := c12_go_acr_id (lit "S"); sgenerics := [];
+                      sfields := [{| fid := c12_go_acr_id (lit "owner"); fty := ROption (RSimple (lit "UserId")); fcomments := [];
+                                     has_default := false; fdecs := [] |};
+                                  {| fid := c12_go_acr_id (lit "at"); fty := RVec (RPrim PDateTime); fcomments := [];
+                                     has_default := false; fdecs := [] |}];
+                      scomments := []; sdecs := []; sredacted := false |}];
+     p_enums := []; p_aliases := []; p_consts := []; p_type_names := []; p_errors := []; p_imports := [] |}.
+Theorem c12_go_acronyms_nonvacuous :
+  c12_go_dom_acr c12_go_acr_cfg (items_of c12_go_acr_pd) = true /\
+  c12_go_observe uc_exec c12_go_acr_cfg c12_go_acr_pd = Ok ([lit "time"], [lit "json"; lit "time"]).
+Proof. vm_compute. split; reflexivity. Qed.
